@@ -40,6 +40,12 @@ def main():
         done = set(); selftests(rep, seed, done)
         mod.run(rep)
         selftests(rep, seed, done)          # front ends imported lazily by the property module
+    except LookupError as e:
+        # a function under contract was renamed or removed: the contracts no longer apply to the tree -- undecided (exit 2), not a checker crash and not a violation
+        if ' not found in ' in str(e):
+            rep.add(core.Ob(f'{a.prop}/{str(e).split(" not found in ")[0]}/engine-subset', None, 'extraction', core.UNKNOWN, 0.0, detail=f'function under contract not found: {e}', clause='the functions under contract exist under their names'))
+        else:
+            traceback.print_exc(); rep.errors.append('engine crash: ' + traceback.format_exc().strip().splitlines()[-1])
     except Exception:
         traceback.print_exc()
         rep.errors.append('engine crash: ' + traceback.format_exc().strip().splitlines()[-1])
